@@ -38,6 +38,12 @@ def gen_chain(rng, k, B):
                 ops.append([2, rng.randrange(0, 20)])
                 if rng.random() < 0.4:
                     ops.append([3])          # compaction with a partly consumed stream buffer
+            if role == 3 and rng.random() < 0.6:
+                # the Filter stops reading Stdin where it is (possibly in the middle of a record) and goes on with Data
+                ops.append([5, DATA])
+                for _ in range(rng.randrange(1, 4)):
+                    ops.append(rng.choice([[0, rng.randrange(1, 80)], [1, rng.randrange(1, 80), rng.randrange(1, 40)]]))
+                    ops.append([2, rng.randrange(0, 30)])
         elif pol == "end":
             for _ in range(len(flat(srecs)) // 16 + 4):
                 ops += [[0, 10 ** 6], [2, 10 ** 6], [4, 10 ** 6], [3]]
